@@ -105,6 +105,7 @@ class Schema:
     branches: list                  # list[list[Item]]
     kw: dict = field(default_factory=dict)
     guards: list = field(default_factory=list)     # recognised skip-guards (redundancy / fairness)
+    problems: list = field(default_factory=list)   # guards that are not what their shape claims (a `branch.has(x)` skip whose x is not a node the rule adds)
     family: str = 'generic'
     ticking: bool = True
     consts: set = field(default_factory=set)       # constant kinds used
@@ -118,9 +119,10 @@ class Schema:
 # the *normalised source text of the test* in the named function.
 # Reviewed redundancy / fairness / termination guards, by shape (local variable names are free):
 GUARD_PATTERNS = {
-    r'not self\[NodeCount\]\.isleast\(\w+, branch\)': 'fairness: only least-applied nodes are considered now (postponement)',
+    r'not self\[NodeCount\]\.isleast\(\w+, branch\)( and .+)?': 'fairness: a node applied more often than another is postponed; that the postponement ends (no starvation) '
+                                                                    'is decided by helpersfold.fold_fair_gate (C02.R8), whatever further condition narrows the gate',
     r'\(\w+, \w+\) in self\[NodesWorlds\]\[branch\]': 'redundancy: this (node, world) instance was already applied',
-    r'branch\.has\(\w+\)': 'redundancy: the node to add is already on the branch',
+    # `branch.has(<expr>)` is handled structurally (Eval.has_guard): <expr> is evaluated and must be a node the rule goes on to add
     r'self\[WorldIndex\]\.has\(branch, \w+\)': 'redundancy: the access pair is already on the branch',
     r'not self\._should_apply\(branch\)': 'serial rule: world limit (termination); what must still be offered is checked by helpersfold.fold_serial_rule',
     r'not branch\.has\(\{Node\.Key\.world: \w+\}\)': 'serial rule: a world without sentence nodes needs no successor (termination); fold_serial_rule '
@@ -232,6 +234,16 @@ class Extractor:
             fn = ev.yield_fns[0]        # report at the function that actually produces the nodes
         sch = Schema(rule=rc, attrs=attrs, entry=nm, fn=fn, subject=S, branches=branches, kw=kw,
                      guards=ev.guards, family=family, ticking=bool(ticking))
+        for val, nbefore, text in ev.has_guards:
+            later = []
+            for y in ev.yields[nbefore:]:
+                if isinstance(y, dict) and 'groups' in y:
+                    later += [it_ for g_ in y['groups'] for it_ in g_]
+                elif isinstance(y, Item):
+                    later.append(y)
+            if not any(val == it_ for it_ in later):
+                sch.problems.append(f'{text}|the expansion is skipped when `{text}` holds, but {val!r} is not a node the rule goes on to add ({later!r}): '
+                                    f'not a redundancy guard -- the node is then never expanded on that branch')
         for b in branches:
             for it in b:
                 if it.kind == 'sent':
@@ -280,6 +292,7 @@ class Eval:
         self.ex, self.m, self.rc, self.attrs, self.S, self.fn = ex, ex.m, rc, attrs, S, fn
         self.yields = []
         self.guards = []
+        self.has_guards = []          # (value of x in a `branch.has(x)` skip, number of yields before it, source text)
         self.where = ex.m.floc(fn)
         self.owner = fn.owner
         self.cur_fn = fn
@@ -335,11 +348,18 @@ class Eval:
                          and ast.unparse(x.value.func) == 'self[FilterHelper].release')
                         for x in st.body) and not (isinstance(st.body[-1], ast.Return) and st.body[-1].value is not None)
                 text = ast.unparse(st.test)
+                if skip and self.has_guard(st.test, env, text):
+                    continue
                 if skip and text in ACCEPTED_GUARDS:
                     self.guards.append(text)
                     continue
                 # the same guards written the other way round: `if <not guard>: <the rest>` (no else)
                 neg = negate_text(st.test)
+                if not st.orelse and isinstance(st.test, ast.UnaryOp) and isinstance(st.test.op, ast.Not) and self.has_guard(st.test.operand, env, neg):
+                    r = self.run(st.body, env)
+                    if r:
+                        return r
+                    continue
                 if not st.orelse and neg in ACCEPTED_GUARDS:
                     self.guards.append(neg)
                     r = self.run(st.body, env)
@@ -376,6 +396,19 @@ class Eval:
                     raise self.unsupported(f'loop over {ast.unparse(st.iter)[:60]} = {it!r}')
                 continue
             raise self.unsupported(f'statement {ast.unparse(st)[:60]}')
+
+    def has_guard(self, test, env, text):
+        "`branch.has(<expr>)` as a skip condition: a redundancy guard only if <expr> is a node the rule adds afterwards (checked in extract)"
+        if not (isinstance(test, ast.Call) and isinstance(test.func, ast.Attribute) and test.func.attr == 'has' and isinstance(test.func.value, ast.Name)
+                and test.func.value.id == 'branch' and len(test.args) == 1 and not test.keywords):
+            return False
+        try:
+            v = self.ev(test.args[0], env)
+        except Unsupported:
+            return False
+        self.has_guards.append((v, len(self.yields), text))
+        self.guards.append(text)
+        return True
 
     def bind(self, t, v, env):
         if isinstance(t, ast.Name):
